@@ -224,6 +224,8 @@ pub fn struct_names(output: &str) -> Vec<String> {
         }
     }
     let mut out = vec![];
+    // the run-time helper that ends every output is the same text each time and holds no component
+    let output = &output[..output.find("\npub mod error {").unwrap_or(output.len())];
     let parsed = syn::parse_file(output);
     match &parsed {
         Ok(f) => walk(&f.items, &mut out),
